@@ -351,9 +351,10 @@ Lemma extend_loop_is_inserts nx items :
      match its with
      | [] => call_next nx
      | (k, v) :: rest =>
-         bind (call_next nx) (fun _ =>
-         bind (insert E debug k v) (fun old =>
-         bind (drop_opt_val E old) (fun _ => go rest)))
+         bind (on_unwind (unwind_pairs E its) (call_next nx)) (fun _ =>
+         bind (on_unwind (unwind_pairs E rest)
+                 (bind (insert E debug k v) (fun old => drop_opt_val E old))) (fun _ =>
+         go rest))
      end) items.
 Proof.
   induction items as [|[k v] rest IH]; [reflexivity|].
@@ -404,12 +405,14 @@ Proof.
   - eapply wp_mono; [apply call_next_lawful; exact Hnx | | intros ? []]; cbn beta.
     intros _ w1 [Hs1 Hl1]. rewrite Hs1. split; [exact Hw|]. split; [reflexivity|]. split; [reflexivity|].
     exists [EvCall 1]. split; [exact Hl1 | reflexivity].
-  - apply wp_bind. eapply wp_mono; [apply call_next_lawful; exact Hnx | | intros ? []]; cbn beta.
+  - apply wp_bind. apply wp_on_unwind_nopanic.
+    eapply wp_mono; [apply call_next_lawful; exact Hnx | | intros ? []]; cbn beta.
     intros _ w1 [Hs1 Hl1].
     assert (Hw1 : WF (self w1)) by (rewrite Hs1; exact Hw).
+    apply wp_bind. apply wp_on_unwind_frame; [apply frame_unwind_pairs|].
     apply wp_bind. eapply wp_mono; [apply (insert_lawful E debug ck cq HL k v w1 Hw1) | |]; cbn beta.
     + intros old w2 (Hw2 & Hc2 & He2 & _ & Hlg2). rewrite Hs1 in Hc2, He2, Hlg2.
-      apply wp_bind. eapply wp_mono; [apply drop_opt_val_lawful | | intros ? []]; cbn beta.
+      eapply wp_mono; [apply drop_opt_val_lawful | | intros ? []]; cbn beta.
       intros _ w3 [Hs3 Hlg3].
       assert (Hw3 : WF (self w3)) by (rewrite Hs3; exact Hw2).
       eapply wp_mono; [apply (IH w3 Hw3) | |]; cbn beta.
@@ -429,7 +432,7 @@ Proof.
         rewrite l_extend_cons_ok.
         -- rewrite <- He2, <- Hc2. exact Hex.
         -- rewrite <- He2, (elems_length _ Hw2), <- Hc2. apply WF_len_le_cap. exact Hw2.
-    + intros w2 ([Hs2 _] & Hf & Hfull). rewrite Hs1 in Hf, Hfull. rewrite Hs2, Hs1.
+    + intros w2 (Hs2 & _ & Hf & Hfull) w3 Hs3. rewrite Hs1 in Hf, Hfull. rewrite Hs3, Hs2, Hs1.
       split; [exact Hw|]. split; [reflexivity|].
       apply l_extend_cons_full; [exact Hf|]. rewrite (elems_length _ Hw). lia.
 Qed.
@@ -516,8 +519,10 @@ Lemma s_extend_loop_is_inserts nx items :
      match its with
      | [] => call_next nx
      | k :: rest =>
-         bind (call_next nx) (fun _ =>
-         bind (bind (insert E debug k tt) (fun r => ret (is_none r))) (fun _ => go rest))
+         bind (on_unwind (unwind_pairs E (List.map (fun x => (x, tt)) its)) (call_next nx)) (fun _ =>
+         bind (on_unwind (unwind_pairs E (List.map (fun x => (x, tt)) rest))
+                 (bind (bind (insert E debug k tt) (fun r => ret (is_none r))) (fun _ => ret tt))) (fun _ =>
+         go rest))
      end) items.
 Proof.
   induction items as [|k rest IH]; [reflexivity|].
@@ -539,13 +544,15 @@ Proof.
     intros _ w1 [Hs1 Hl1]. rewrite Hs1. split; [exact Hw|]. split; [reflexivity|]. split; [reflexivity|].
     exists [EvCall 1]. split; [exact Hl1 | reflexivity].
   - fold (unit_items rest).
-    apply wp_bind. eapply wp_mono; [apply call_next_lawful; exact Hnx | | intros ? []]; cbn beta.
+    apply wp_bind. apply wp_on_unwind_nopanic.
+    eapply wp_mono; [apply call_next_lawful; exact Hnx | | intros ? []]; cbn beta.
     intros _ w1 [Hs1 Hl1].
     assert (Hw1 : WF (self w1)) by (rewrite Hs1; exact Hw).
+    apply wp_bind. apply wp_on_unwind_frame; [apply frame_unwind_pairs|].
     apply wp_bind. unfold s_insert. apply wp_bind.
     eapply wp_mono; [apply (insert_lawful E debug ck cq HL k tt w1 Hw1) | |]; cbn beta.
     + intros old w2 (Hw2 & Hc2 & He2 & _ & Hlg2). rewrite Hs1 in Hc2, He2, Hlg2.
-      apply wp_ret.
+      apply wp_ret. apply wp_ret.
       eapply wp_mono; [apply (IH w2 Hw2) | |]; cbn beta.
       * intros _ w4 (Hw4 & Hc4 & Hex & evs & Hl4 & Hcnt).
         split; [exact Hw4|]. split; [congruence|]. split.
@@ -563,7 +570,7 @@ Proof.
         rewrite l_extend_cons_ok.
         -- rewrite <- He2, <- Hc2. exact Hex.
         -- rewrite <- He2, (elems_length _ Hw2), <- Hc2. apply WF_len_le_cap. exact Hw2.
-    + intros w2 ([Hs2 _] & Hf & Hfull). rewrite Hs1 in Hf, Hfull. rewrite Hs2, Hs1.
+    + intros w2 (Hs2 & _ & Hf & Hfull) w3 Hs3. rewrite Hs1 in Hf, Hfull. rewrite Hs3, Hs2, Hs1.
       split; [exact Hw|]. split; [reflexivity|].
       apply l_extend_cons_full; [exact Hf|]. rewrite (elems_length _ Hw). lia.
 Qed.
